@@ -27,7 +27,8 @@ C13.optout  an owner is left out for opt-out only if the opt-out flag is set,
 import re
 
 from mirlib import BranchFacts, closures_created_in, strip, deep_strip, show, walk, const_value
-from rulelib import bool_facts, cyclic_blocks, facts_at, outcome_facts, return_assignments
+from rulelib import (bool_facts, controlling_switches, cyclic_blocks, facts_at, fmt_path, must_pass, outcome_facts,
+                     return_assignments)
 
 RRSIG, NSEC, NS, DS, SOA, DNSKEY, NSEC3PARAM = 46, 47, 2, 43, 6, 48, 51
 D = "dnssec::sign::denial::"
@@ -48,6 +49,10 @@ def run(ctx):
     rule_optout(ctx, F)
     rule_hash(ctx, F)
     rule_ent(ctx, F)
+    # "in canonical order": the generators link names in the order SortedRecords keeps them, which is the
+    # order of Label::cmp / name_cmp -- the case folding of that order is part of this property as well
+    import c04
+    c04.rule_fold(ctx, F)
 
 
 def _body(F, rx):
@@ -301,6 +306,17 @@ def rule_close(ctx, F):
             else:
                 ctx.ob(R, b, "the last record points back to the apex", 1 in roots,
                        "the NSEC emitted after the walk does not use the apex as its next name: the chain is not closed", b.where(bb))
+        # every successful return has been through the step that closes the chain
+        last = [bb for bb, t in news if bb not in cyc]
+        oks = sorted({r[0] for r in return_assignments(b) if r[2] == "Ok"})
+        if last and ctx.anchor(R, "success return of generate_nsecs", bool(oks), b.where()):
+            ctl = [sw for sw in controlling_switches(b, last[0]) if sw not in cyc]
+            if ctx.anchor(R, "the test of the pending record that guards the closing NSEC", bool(ctl), b.where(last[0])):
+                ok, path = must_pass(b, 0, oks, ctl)
+                ctx.ob(R, b, "every successful return passes the closing step", ok,
+                       "generate_nsecs can return Ok without going through the step that emits the pending last record "
+                       "pointing back to the apex (path %s): the last authoritative name gets no NSEC and the chain is "
+                       "left open" % (fmt_path(path) if path else ""), b.where(last[0]))
     c = _body(F, r"^dnssec::sign::denial::nsec3::generate_nsec3s$")
     if ctx.anchor(R, "generate_nsec3s", c):
         sorts = [bb for bb, t in c.calls() if re.search(r"Sorter::sort_by$|::sort_by$", t["fn"] or "")]
@@ -329,6 +345,12 @@ def rule_close(ctx, F):
                    "the next hashed owner is not derived from the record that follows (iter.peek())", c.where(sets[0]))
             ctx.ob(R, c, "the last record links to the first", wrap,
                    "the last NSEC3 does not fall back to the first record: the chain is not closed", c.where(sets[0]))
+            oks3 = sorted({r[0] for r in return_assignments(c) if r[2] == "Ok"})
+            if ctx.anchor(R, "success return of generate_nsec3s", bool(oks3), c.where()) and sorts:
+                ok3, path3 = must_pass(c, 0, oks3, sorts)
+                ctx.ob(R, c, "every successful return passes the sort-and-link step", ok3,
+                       "generate_nsec3s can return Ok without sorting and linking the records (path %s)"
+                       % (fmt_path(path3) if path3 else ""), c.where(sorts[0]))
             ctx.ob(R, c, "every record is linked", sets[0] in cyclic_blocks(c),
                    "set_next_owner is not applied inside the loop over all records", c.where(sets[0]))
 
@@ -504,7 +526,7 @@ def rule_hash(ctx, F):
 
 def rule_ent(ctx, F):
     R = "C13.ent"
-    ctx.floor(R, 1)
+    ctx.floor(R, 2)
     c = _body(F, r"^dnssec::sign::denial::nsec3::generate_nsec3s$")
     if not ctx.anchor(R, "generate_nsec3s", c):
         return
@@ -524,6 +546,47 @@ def rule_ent(ctx, F):
                "owner's distance to the apex (labels(owner) - labels(apex)); found %s: the NSEC3 chain gets a record for a "
                "name that is not in the zone and misses the real empty non-terminal" % total, c.where(bb))
     ctx.anchor(R, "skip(n).take(..) in the ENT name builder", done >= 1, c.where())
+    # the walk over the intermediate depths visits every depth: its only exits are the exhaustion of the
+    # iterator that drives it and error / panic paths -- no exit that depends on what was found so far
+    site = next((bb for bb, t in takes if any(s[0] == "call" and re.search(r"Iterator::skip$", s[1] or "")
+                                               for s in walk(c.term_of_operand(t["args"][0])))), None)
+    if site is None:
+        return
+    heads = [h for (u, h, lab) in c.back_edges() if c.dominates(h, site)]
+    if not ctx.anchor(R, "the loop over the intermediate depths", len(set(heads)) >= 2, c.where(site)):
+        return
+    inner = [h for h in set(heads) if all(c.dominates(o, h) for o in set(heads))][0]
+    preds = c.preds()
+    loop = {inner}
+    work = [u for (u, h, lab) in c.back_edges() if h == inner]
+    while work:
+        x = work.pop()
+        if x in loop:
+            continue
+        loop.add(x)
+        work.extend(p_ for p_, _l in preds.get(x, []) if p_ not in loop and p_ in c.reachable_blocks())
+    mk = [bb for bb, t in c.calls() if re.search(r"nsec3::mk_nsec3$", t["fn"] or "")]
+    bf = BranchFacts(c, F)
+    bad = []
+    n_exits = 0
+    for x in sorted(loop):
+        for s_, lab in c.succs(x):
+            if s_ in loop:
+                continue
+            n_exits += 1
+            fact = bf.edge_facts(x).get(lab) if c.blocks[x]["t"]["k"] == "switch" else None
+            driver = False
+            if fact is not None and fact[1] == ("variant", "None"):
+                core = [q for q in walk(deep_strip(fact[0])) if q[0] == "call" and q[1]]
+                driver = bool(core) and re.search(r"Iterator>?::next$", core[0][1]) is not None
+            goes_on = any(m in c.reach_from(s_) for m in mk)
+            if not driver and goes_on:
+                bad.append(x)
+    ctx.ob(R, c, "the ENT walk has no early exit", not bad and n_exits >= 1,
+           "the loop that builds the empty non-terminals between the last non-empty ancestor and the owner can be left "
+           "before its iterator is exhausted (and the function carries on): deeper empty non-terminals of a second branch "
+           "below a shared one get no NSEC3 record", c.where(bad[0]) if bad else c.where(inner),
+           detail="%d blocks in the loop, %d exit edge(s), %d data-dependent" % (len(loop), n_exits, len(bad)))
 
 
 def _lin_counts(b, t, depth=0):
